@@ -21,9 +21,12 @@ ORBS = orbital_space(1, 1)
 NAMES = ["i", "j", "k", "a", "b", "c", "p"]
 
 
+SPIN = [None]     # spin of all indices of the current case (None: spin orbitals)
+
+
 def letter_range(ch):
     sp = "o" if ch in "ijklmno" else ("v" if ch in "abcdefgh" else "g")
-    return [o for o in ORBS if sp == "g" or o[0] == sp]
+    return [o for o in ORBS if (sp == "g" or o[0] == sp) and (SPIN[0] is None or o[2] == SPIN[0])]
 
 
 class NT:
@@ -311,7 +314,8 @@ def run_code(code, env, target, backend):
 
 
 def build(case):
-    idx = {n: get_symbols(n)[0] for n in NAMES}
+    spin = case.get("spin")
+    idx = {n: get_symbols(n, spin)[0] for n in NAMES}
     fs = []
     for kind, names, exp in case["objs"]:
         t = tuple(idx[n] for n in names)
@@ -353,7 +357,9 @@ def gen_cases(tier, seed):
             objs.append([kind, names, rng.choice([1, 1, 1, 2])])
         yield {"objs": objs, "pref": [rng.choice([1, -1, 3]), rng.choice([1, 2, 4, 3])],
                "tseed": rng.randint(0, 10 ** 6), "backend": rng.choice(["einsum", "einsum", "libtensor"]),
-               "optimize": rng.random() < 0.8, "comma": rng.random() < 0.3}
+               "optimize": rng.random() < 0.7, "comma": rng.random() < 0.3,
+               # spatial orbitals of one spin with an explicit target spin string
+               "spin": rng.choice([None, None, "a", "b"])}
 
 
 def check(case):
@@ -377,8 +383,10 @@ def check(case):
         tstr = tstr[:len(tstr) // 2] + "," + tstr[len(tstr) // 2:]
     model = Model(ORBS, seed=17, braket={"V": 1, "f": 1})
     backend = case["backend"]
+    SPIN[0] = case.get("spin")
+    tspin = case["spin"] * len(tnames) if case.get("spin") else None
     try:
-        code = generate_code(e, tstr, backend=backend,
+        code = generate_code(e, tstr, target_spin=tspin, backend=backend,
                              optimize_contraction_scheme=case.get("optimize", True))
     except NotImplementedError as ex:
         return True, f"refused: {ex}"
@@ -400,6 +408,6 @@ CHECKS = {
     "generated_code.execute": {
         "function": "adcgen.generate_code.generate_code:generate_code", "cases": gen_cases,
         "check": check,
-        "bound": "single terms of <= 3 objects (ERI, Fock, antisymmetric / non symmetric tensors, deltas, exponents <= 2, traces) over 7 single letter index names, random target order with / without bra-ket separator, rational prefactors, einsum and libtensor backends, optimised / unoptimised schemes; emitted text executed by an independent interpreter, 2 occ + 2 virt spin orbitals",
+        "bound": "single terms of <= 3 objects (ERI, Fock, antisymmetric / non symmetric tensors, deltas, exponents <= 2, traces) over 7 single letter index names, random target order with / without bra-ket separator, rational prefactors, einsum and libtensor backends, optimised / unoptimised schemes, spin orbital indices or indices of one spin with an explicit target spin string; emitted text executed by an independent interpreter, 2 occ + 2 virt spin orbitals",
     },
 }
